@@ -139,6 +139,33 @@ Proof.
       rewrite (named_in_perm P (ents l) k PS). tauto.
 Qed.
 
+(* any duplicate-free selection of a replica's entries, opened without heads, under its own id *)
+Lemma pick_sub U l (P : list entry) : pinv U l -> (forall e, In e P -> In e (ents l)) -> NoDup (map e_hash P) ->
+  pick (l_entries l) (map e_hash P) = P.
+Proof.
+  intros I HS ND. unfold pick. rewrite (uniq_id _ ND). exact (flat_pick_id U l I P HS).
+Qed.
+
+Theorem reopen_selection_admissible ops r l (P : list entry) key sf deny :
+  owf ops -> nth_error (s_logs (System.run ops)) r = Some l ->
+  (forall e, In e P -> In e (ents l)) -> NoDup (map e_hash P) ->
+  let reopen := OOpen r (map e_hash P) [] (l_id l) key sf deny in
+  owf (ops ++ [reopen]) /\
+  exists l', nth_error (s_logs (System.run (ops ++ [reopen]))) (length (s_logs (System.run ops))) = Some l' /\
+    ents l' = P /\ l_id l' = l_id l.
+Proof.
+  intros W L HS ND reopen. destruct (osinv_run ops W) as [UO IL]. pose proof (IL r l L) as I.
+  assert (PK : pick (l_entries l) (map e_hash P) = P) by (apply (pick_sub _ (lift l) P I HS ND)).
+  assert (WS : owf_step (System.run ops) reopen).
+  { unfold reopen. cbn [owf_step]. intros l0 L0. rewrite L in L0. injection L0 as <-. split; [reflexivity|].
+    unfold pick at 2. cbn. unfold heads_consistentb. reflexivity. }
+  split; [apply owf_app; [exact W|exact WS]|].
+  exists (open_from l (map e_hash P) [] (l_id l) key sf deny). split.
+  - unfold reopen, System.run. rewrite run_from_app. cbn [System.run_from fold_left System.step]. fold (System.run ops). rewrite L. cbn [fst s_logs].
+    rewrite nth_error_app2 by lia. rewrite Nat.sub_diag. reflexivity.
+  - split; [|reflexivity]. unfold open_from, new_log_from, ents. cbn [l_entries]. rewrite PK. apply (oslice_from_entries_nodup P ND).
+Qed.
+
 (* ---- the log a loader returns ---- *)
 From IpfsLog Require Import Model.Fetcher Proofs.FetcherBasics Proofs.LoaderProofs Proofs.BridgeProofs.
 
@@ -178,4 +205,27 @@ Proof.
   split; [rewrite Ee; symmetry; exact EP|]. split; [congruence|].
   intros e. rewrite (Sheads e). unfold fheads_of. rewrite !in_map_iff. split; intros [x [<- Hx]]; exists x; (split; [reflexivity|]);
     apply In_oslice in Hx; destruct Hx as [k Hx]; apply In_oslice; exists k; now apply Eh.
+Qed.
+
+(* a loaded entry list that is a duplicate-free part of the stored log (what the length-limited loaders
+   hand to NewLog, by the theorems of C10) gives a replica too: the three loaders that pass no heads *)
+Theorem reloaded_selection_is_a_replica ops r l (X : list fentry) key sf deny :
+  owf ops -> nth_error (s_logs (System.run ops)) r = Some l ->
+  incl X (fentries_of l) -> NoDup (map fe_hash X) ->
+  let reopen := OOpen r (map fe_hash X) [] (l_id l) key sf deny in
+  owf (ops ++ [reopen]) /\
+  exists lr, nth_error (s_logs (System.run (ops ++ [reopen]))) (length (s_logs (System.run ops))) = Some lr /\
+    map fentry_of (ents lr) = X /\ l_id lr = l_id l.
+Proof.
+  intros W L HI ND reopen.
+  assert (EX : exists P, X = map fentry_of P /\ forall e, In e P -> In e (ents l)).
+  { clear ND reopen. induction X as [|x X IH]; [exists []; split; [reflexivity|intros e []]|].
+    destruct IH as [P [EP HP]]; [intros y Hy; apply HI; now right|].
+    assert (Hx : In x (fentries_of l)) by (apply HI; now left). unfold fentries_of in Hx. apply in_map_iff in Hx.
+    destruct Hx as [e [<- He]]. exists (e :: P). split; [cbn; now rewrite EP|]. intros y [<-|Hy]; auto. }
+  destruct EX as [P [EP HP]].
+  assert (EK : map fe_hash X = map e_hash P) by (rewrite EP, map_map; reflexivity).
+  unfold reopen. rewrite EK. rewrite EK in ND.
+  destruct (reopen_selection_admissible ops r l P key sf deny W L HP ND) as [W' [lr [L' [Ee Ei]]]].
+  split; [exact W'|]. exists lr. split; [exact L'|]. split; [rewrite Ee; symmetry; exact EP|exact Ei].
 Qed.
